@@ -172,7 +172,18 @@ pub fn corrupt(rng: &mut Rng, b: &mut Vec<u8>) -> &'static str {
                 3 | 4 => { let v = match rng.below(5) { 0 => i as u32, 1 => rng.below(n as u64 + 2) as u32, 2 => n as u32, 3 => (n as u32).wrapping_sub(1), _ => special(rng, n) }; wr32(b, base + 68 + 4 * rng.below(3) as usize, v); "dir-link" }
                 5 | 6 => { let v = special(rng, l.nsec); wr32(b, base + 116, v); "dir-start-sector" }
                 7 | 8 => {
-                    let v: u64 = *rng.pick(&[0u64, 1, 63, 64, 65, 4095, 4096, 4097, 1 << 20, 1 << 31, (1 << 32) - 1, 1 << 32, u64::MAX, 100, 5000, 1 << 63, (1 << 63) + 10, 0xFFFF_FFFF_FFFF_FFF0, u64::MAX - 1]);
+                    let mut v: u64 = *rng.pick(&[0u64, 1, 63, 64, 65, 4095, 4096, 4097, 1 << 20, 1 << 31, (1 << 32) - 1, 1 << 32, u64::MAX, 100, 5000, 1 << 63, (1 << 63) + 10, 0xFFFF_FFFF_FFFF_FFF0, u64::MAX - 1]);
+                    if rng.chance(1, 3) && base + 128 <= b.len() {
+                        // a little more than the chain holds (the recorded size off by a few bytes beyond the last
+                        // (mini) sector, on the same side of the cutoff): the shortfall shows up in the last window
+                        let cur = u64::from_le_bytes(b[base + 120..base + 128].try_into().unwrap()) & 0xFFFF_FFFF;
+                        let unit = if cur < 4096 { 64 } else { l.s as u64 };
+                        let cap = (cur + unit - 1) / unit * unit;
+                        let w = cap + 1 + rng.below(unit.min(63));
+                        if (cur < 4096) == (w < 4096) && cur > 0 {
+                            v = w;
+                        }
+                    }
                     if base + 128 <= b.len() { b[base + 120..base + 128].copy_from_slice(&v.to_le_bytes()); }
                     "dir-stream-len"
                 }
